@@ -70,10 +70,24 @@ def small_drop_reaction(draw):
 
 
 @st.composite
+def duplicated_molecule_reaction(draw):
+    """a molecule listed twice with identical text on one side (two equivalents): union of two reactions sharing a
+    reactant, optionally with a small product dropped so that the rule-based stage has to fill it"""
+    rxn, tags = draw(gen.shared_reagent_union())
+    a, b = oracle.split_reaction(rxn)
+    pb = b.split(".")
+    small = [i for i, m in enumerate(pb) if (oracle.heavy_atoms(m) or 0) <= 3 and oracle.count_element(m, "C") == 0]
+    if small and draw(st.booleans()):
+        pb.pop(small[draw(st.integers(0, len(small) - 1))])
+    return a + ">>" + ".".join(pb), tags + ["duplicated-molecule"]
+
+
+@st.composite
 def spelling_case(draw):
     base, tags = draw(st.one_of(
         small_drop_reaction(), small_drop_reaction(), gen.template_reaction(),
         gen.with_markers(st.one_of(small_drop_reaction(), gen.template_reaction()), max_markers=1),
+        gen.shared_reagent_union(), duplicated_molecule_reaction(),
         gen.indexed(gen.load_reactions_capped("balanced", 40, 5)).map(lambda r: (r, ["balanced"])),
         pp.closed_shell_rx(gen.corpus_reaction(30, 4))))
     if not oracle.reaction_closed_shell(base):
